@@ -805,8 +805,11 @@ class Interp:
         stable = self._stable_locals(fr)
         dead = []
         for key in st.facts:
-            if key[0] in ('isnone', 'is') and all(dep in stable for dep in _fact_deps(key)
-                                                  if dep not in ('None', 'GeneratorExit')):
+            if key[0] in ('isnone', 'is', 'lt', 'le', 'eq') and all(
+                    dep in stable for dep in _fact_deps(key)
+                    if dep not in ('None', 'GeneratorExit')) and \
+                    not any('(' in part or '[' in part for part in key[1:]):
+                # comparisons between never re-bound locals/constants cannot change
                 continue
             dead.append(key)
         for key in dead:
